@@ -99,6 +99,8 @@ type VerifOpObs struct {
 	Reached  bool         `json:"reached,omitempty"`
 	BBlocked bool         `json:"bblocked,omitempty"`
 	BErr     string       `json:"berr,omitempty"`
+	BLens    []int        `json:"blens,omitempty"`
+	Live     [][2]string  `json:"live,omitempty"` // details: (local id, name property) of every non-deleted entity of core.Dataset's latest view
 }
 
 type VerifObs struct {
@@ -299,6 +301,13 @@ func verifDetails(h *verifHub, names []string) (oo VerifOpObs) {
 		oo.Err = "core entities: " + err.Error()
 		return
 	}
+	oo.Live = [][2]string{}
+	for _, e := range latest {
+		if !e.IsDeleted {
+			m := verifMetaOf(h.store, e)
+			oo.Live = append(oo.Live, [2]string{m.ID, m.Name})
+		}
+	}
 	for _, n := range names {
 		d := VerifDsObs{Name: n, Metas: []VerifMeta{}, Latest: []VerifMeta{}}
 		for _, e := range feed {
@@ -474,7 +483,22 @@ func verifPair(h *verifHub, c VerifCase, op VerifOp) (oo VerifOpObs) {
 	blocked := make(chan struct{})
 	var once, onceBlocked sync.Once
 	var paused int32
+	var waitingSince int64 // actor 2 waits for some other lock since (a repaired tree may make it wait elsewhere)
 	target := op.Ds
+	stopPoll := make(chan struct{})
+	defer close(stopPoll)
+	go func() {
+		for {
+			select {
+			case <-stopPoll:
+				return
+			case <-time.After(50 * time.Millisecond):
+				if w := atomic.LoadInt64(&waitingSince); w != 0 && atomic.LoadInt32(&paused) == 1 && time.Now().UnixNano()-w > int64(2*time.Second) {
+					onceBlocked.Do(func() { close(blocked) })
+				}
+			}
+		}
+	}()
 	verifhook.SetHandler(func(name, arg string) {
 		if name == "updateDataset.afterRead" && arg == target {
 			first := false
@@ -488,8 +512,14 @@ func verifPair(h *verifHub, c VerifCase, op VerifOp) (oo VerifOpObs) {
 			return
 		}
 		// while actor 1 is paused it holds exactly the write lock of its dataset: anybody waiting for it is actor 2
-		if name == "lock.wait" && arg == target && atomic.LoadInt32(&paused) == 1 {
-			onceBlocked.Do(func() { close(blocked) })
+		if atomic.LoadInt32(&paused) == 1 {
+			if name == "lock.wait" && arg == target {
+				onceBlocked.Do(func() { close(blocked) })
+			} else if name == "lock.wait" {
+				atomic.StoreInt64(&waitingSince, time.Now().UnixNano())
+			} else if name == "lock.acquired" {
+				atomic.StoreInt64(&waitingSince, 0)
+			}
 		}
 	})
 	defer verifhook.SetHandler(nil)
@@ -544,6 +574,7 @@ func verifPair(h *verifHub, c VerifCase, op VerifOp) (oo VerifOpObs) {
 	oo.Panic = aObs.Panic
 	oo.Lens = aObs.Lens
 	oo.BErr = bObs.Err
+	oo.BLens = bObs.Lens
 	if bObs.Panic != "" {
 		oo.BErr = "panic: " + bObs.Panic
 	}
